@@ -46,6 +46,12 @@ def guards():
         "AcceptsWellFormed")
     add("Refine: index from level-0 cells * 2**level", ("MC_Refine", {"INIT": "Init", "NEXT": "Next", "CONSTANTS": dict(rf, IndexRule='"pow2-of-level0"'), "INVARIANTS": rinv}),
         "PointIndexRight")
+    sm = dict(StartMethod='"spawn"', Transport='"by-task"', Requests="{0, 1, 2}")
+    add("StartMethod: request in the task (spawn)", ("StartMethod", {"SPECIFICATION": "Spec", "CONSTANTS": sm, "INVARIANTS": ["WorkerSeesRequest"]}), None)
+    add("StartMethod: request in a global (fork)", ("StartMethod", {"SPECIFICATION": "Spec", "CONSTANTS": dict(sm, StartMethod='"fork"', Transport='"by-global"'),
+                                                                    "INVARIANTS": ["WorkerSeesRequest"]}), None)
+    add("StartMethod: request in a global (spawn)", ("StartMethod", {"SPECIFICATION": "Spec", "CONSTANTS": dict(sm, Transport='"by-global"'),
+                                                                     "INVARIANTS": ["WorkerSeesRequest"]}), "WorkerSeesRequest")
     ds = dict(NBoxes=6, Limit=3, HandlePolicy='"per-file"', OnError='"propagate"')
     dinv = ["AllOrError", "BoundedHandles", "Succeeds"]
     add("Descriptors: one handle per file", ("Descriptors", {"SPECIFICATION": "Spec", "CONSTANTS": ds, "INVARIANTS": dinv, "PROPERTIES": ["Terminates"]}), None)
